@@ -7,6 +7,9 @@ exception Bad of string
 let parse_in (ins : string list) : listener * tunnel * inner list =
   match ins with
   | l :: t :: rest ->
+      (* an optional A<alpn><h2config> token is TLS configuration of the tunnel, not a model input:
+         HTTP/1.1 traffic must be handled identically in every combination *)
+      let rest = (match rest with a :: r when String.length a = 3 && a.[0] = 'A' -> r | _ -> rest) in
       let l' = (match l with "Lp" -> LPlain | "Ls" -> LShaped | "Lt" -> LTls | "Lx" -> LShapedTls | _ -> raise (Bad l)) in
       (* an optional third character is the client's timing of the first tunnel bytes relative to the
          CONNECT response (b pipelined, c split): not a model input, the proxy must behave the same *)
@@ -92,7 +95,8 @@ let judge _name ins outs =
     let (l, t, reqs) = parse_in ins in
     let os = List.map parse_obs outs in
     let want = run true l t reqs in
-    let toks = (match ins with _ :: _ :: r -> r | _ -> []) in
+    let toks = (match ins with _ :: _ :: a :: r when String.length a = 3 && a.[0] = 'A' -> r
+                           | _ :: _ :: r -> r | _ -> []) in
     match c05_fail l t reqs os with
     | Some c ->
         VPropfail (clause_name c,
